@@ -106,9 +106,15 @@ class StmtMixin:
                     owner, mod, fn = r
                     self.call_function(owner, mod, fn, [base, v], {}, st, fr)
                     return
-            hook = getattr(self, "setattr_hook", None)
-            if hook is not None and hook(base, name, v, st, fr):
-                return
+            if base.cls.startswith("agilerl") and not getattr(self, "_in_setattr", False):
+                r = front.find_method(base.cls, "__setattr__")
+                if r is not None:
+                    self._in_setattr = True
+                    try:
+                        self.call_function(r[0], r[1], r[2], [base, name, v], {}, st, fr)
+                    finally:
+                        self._in_setattr = False
+                    return
             base.fields[name] = v
             return
         if hasattr(base, "setattr"):
